@@ -5,3 +5,4 @@ import SmtpV.Props.C10
 #print axioms SmtpV.Props.C10.C10_no_plaintext_in_tls
 #print axioms SmtpV.Props.C10.C10_upgrade_discards_session
 #print axioms SmtpV.Props.C10.C10_new_session_sees_tls
+#print axioms SmtpV.Props.C10.C10_failed_handshake_changes_nothing
